@@ -24,6 +24,8 @@ type c05Case struct {
 	Same bool         `json:"same_pointer,omitempty"`
 	// Move: operand A is an object that first held Move.From, was compared, and was then driven to Move.To (A is ignored).
 	Move *mon.ElemMove `json:"move,omitempty"`
+	// NegFirst: operand A is negated through the library's own Negate before it is compared (its value is then -A.P).
+	NegFirst bool `json:"negate_a_first,omitempty"`
 }
 
 func init() {
@@ -147,6 +149,28 @@ func c05Generate(c *mon.Ctx) {
 	n5, n6 := mon.MkNatElemCase(pool.All[0], 5), mon.MkNatElemCase(pool.All[0], 6)
 	c.Structured(func() any { return &c05Case{A: n5, B: n6, Rel: "P"} })
 	c.Structured(func() any { return &c05Case{A: n5, B: n5, Rel: "P"} })
+
+	// one operand's raw X resp. Y sits on a structured stored value (what Negate, and the cross products of the equality test,
+	// start from)
+	tg := gen.StoredTargets(oracle.P)
+	for ti, t := range tg {
+		pv := pool.NonInf[ti%len(pool.NonInf)]
+
+		for wi, which := range []string{"Y", "X"} {
+			rp, ok := gen.ReprHitting(pv.P, which, t)
+			if !ok {
+				continue
+			}
+
+			a := mon.MkElemCase(pv, rp)
+			rb := gen.StructuredReprs(false)[(ti+wi)%len(gen.StructuredReprs(false))]
+			b := mon.MkElemCase(pv, rb)
+			nb := mon.MkElemCase(gen.PV{P: oracle.Neg(pv.P), Tag: "-P"}, rb)
+			c.Structured(func() any { return &c05Case{A: a, B: b, Rel: "P"} })
+			c.Structured(func() any { return &c05Case{A: a, B: nb, Rel: "P", NegFirst: true} })
+			c.Structured(func() any { return &c05Case{A: a, B: b, Rel: "-P", NegFirst: true} })
+		}
+	}
 
 	// one operand's Z occupies a single stored limb, the other operand is scaled so that a cross product of the equality test
 	// (X2*Z1, Y2*Z1) has a small stored value: where a short-operand multiplication path must get its last carry right
@@ -289,6 +313,17 @@ func c05Run(c *mon.Ctx, csAny any) {
 		}
 	} else {
 		a = cs.A.Build()
+	}
+
+	if cs.NegFirst {
+		c.Count("negated-first")
+
+		if pan, pv := mon.Call(func() { a.Negate() }); pan {
+			c.Fail(fmt.Sprint("Negate panicked: ", pv), "equal-negate-panic", nil)
+			return
+		}
+
+		pa = oracle.Neg(pa)
 	}
 
 	b := a
